@@ -57,6 +57,8 @@ def main(argv=None):
             assumptions=mod.ASSUMPTIONS,
             extra_cov=extra,
             seed=seed,
+            level=getattr(mod, "LEVEL", "proof"),
+            explanation=getattr(mod, "EXPLANATION", ""),
         )
         return rc
     except BaseException as e:  # noqa: BLE001
